@@ -20,7 +20,7 @@ def builds_needed(tier):
 
 def bounds(tier):
     if tier == "thorough":
-        return {"t": "1..=4", "p": "1..=5", "m": "8p..33p set, every m in 8p..=12p+3 at t=1, 516p/520p/520p+5 (p<=3), 2048 (p in 1,4)", "tag_lengths": "4..=300"}
+        return {"t": "1..=4", "p": "1..=5", "m": "8p..33p set, every m in 8p..=12p+3 at t=1, 516p/520p/520p+5 (p<=3), 2048 (p in 1,4)", "tag_lengths": "4..=300", "extra": "p in {6,7,8,16}, t in {5,10}, m = 4096"}
     return {"t": "1..=2", "p": "1..=3", "m": "8p..33p set, one 520p case per type", "tag_lengths": "{4,5,31,32,33,63,64,65,96,97,128,300}"}
 
 
@@ -54,6 +54,9 @@ def shards(tier):
         else:
             sh.append(("shard_big", (ty, 0x13, 1, 520, (1,))))
             sh.append(("shard_big", (ty, 0x10, 2, 1045, (1,))))
+    if tier == "thorough":
+        for ty in ("d", "i", "id"):
+            sh.append(("shard_wide", ty))
     sh.append(("shard_setters", None))
     return sh
 
@@ -134,6 +137,26 @@ def shard_setters(_, tier):
     for v in (0, 1, 15, 17, 18, 20, 0x1300, 0x100013, 2 ** 32 - 1):
         cases.append((["argon2_setter version %d" % v], ["ERR:UnknownVersion"], None))
     cases.append((["argon2_setter memory_kb 8"], ["OK"], None))
+    ck.run(cases)
+    ck.stats.states = len(cases)
+    return ck.stats
+
+
+def shard_wide(ty, tier):
+    """lane counts and pass counts beyond the main grid"""
+    ck = core.Checker(PROPERTY_ID)
+    cases = []
+    for ver in (0x13, 0x10):
+        for p in (6, 7, 8, 16):
+            for m in (8 * p, 8 * p + 5):
+                tag = argon2.argon2(ty, ver, 1, p, m, PW, SALT, b"", b"", 32)
+                cases.append(([prog(ty, ver, 1, p, m, PW, SALT, b"", b"", 32)], [obs_of(tag)], None))
+        for t in (5, 10):
+            for (p, m) in ((1, 8), (2, 19), (3, 50)):
+                tag = argon2.argon2(ty, ver, t, p, m, PW, SALT, KEY, AAD, 32)
+                cases.append(([prog(ty, ver, t, p, m, PW, SALT, KEY, AAD, 32)], [obs_of(tag)], None))
+    tag = argon2.argon2(ty, 0x13, 1, 2, 4096, PW, SALT, b"", b"", 32)
+    cases.append(([prog(ty, 0x13, 1, 2, 4096, PW, SALT, b"", b"", 32)], [obs_of(tag)], None))
     ck.run(cases)
     ck.stats.states = len(cases)
     return ck.stats
